@@ -24,7 +24,7 @@ ASSUMPTIONS = [
     "Hessian corruption is applied to a single (row, col) entry (not mirrored), so exactly one column of the check is affected",
 ]
 TIERS = {"quick": {"worlds": 700, "wall": 150, "limit": 60.0}, "thorough": {"worlds": 15000, "wall": 1700, "limit": 120.0}}
-GATES = ("nontrivial", "corrupt.dropped_entry", "corrupt.grad", "corrupt.jac", "corrupt.hess", "detected", "passed.uncorrupted", "passed.subtolerance", "passed.other_check")
+GATES = ("nontrivial", "corrupt.hess_wrong_multiplier", "corrupt.dropped_entry", "corrupt.grad", "corrupt.jac", "corrupt.hess", "detected", "passed.uncorrupted", "passed.subtolerance", "passed.other_check")
 
 
 def generate(rng, seed, index, tier):
@@ -143,4 +143,35 @@ def case(world):
             viol.append(V(ID, "wrong-check", "%s entry corrupted but the error comes from a check with %d rows" % (comp, shp), sub, ctx, sig_extra=comp))
             continue
         bump("detected")
+    # ---- the constraint-curvature part of the Hessian is wrong (multiplier mis-scaled by the user)
+    sub = {"variant": "wrong_y"}
+    if second and rt.um.m > 0 and (only is None or only == sub):
+        H_true = rt.H(xi, yi)
+        fac = 0.5
+        yo = np.ldexp(yi, rt.wc - rt.wo)
+        H_bad = np.zeros_like(H_true)
+        H_bad[: rt.um.n, : rt.um.n] = np.ldexp(rt.um.H(rt.user_x(xi), fac * yo), rt.wo - rt.wv[:, None] - rt.wv[None, :])
+        diff = np.abs(H_true - H_bad)
+        thr = tol + 1e-5 * np.abs(H_true)
+        big = np.argwhere(diff > 3.0 * thr + 1e-5)
+        if len(big):
+            w = copy.deepcopy(world)
+            w["faults"] = [{"dev": "eval", "comp": "hess", "corrupt": {"wrong_y": fac}}]
+            F = execute(w)
+            execs += 1
+            bump("nontrivial")
+            bump("corrupt.hess_wrong_multiplier")
+            keys.append("%s:wrong_y:%s" % (R0.traj_digest()[:10], mode))
+            ctx = {"mode": mode, "comp": "hess", "kind": "constraint curvature with a mis-scaled multiplier"}
+            if F.outcome != "DerivError":
+                viol.append(V(ID, "missed", "Hessian computed with half the multiplier (entries wrong by up to %r, %.0f x tolerance) but the solve went on: %s" % (float(diff.max()), float((diff / thr).max()), F.outcome), sub, ctx, sig_extra="hess-multiplier"))
+            else:
+                e = F.exc
+                col = int(e.col_index)
+                rows = [int(i) for i in e.invalid_indices]
+                ok_cols = set(int(c) for (r_, c) in np.argwhere(diff > 0.3 * thr))
+                if col not in ok_cols or not rows or any(diff[r_, col] <= 0.3 * thr[r_, col] for r_ in rows):
+                    viol.append(V(ID, "wrong-location", "Hessian with a mis-scaled multiplier: the error names column %d rows %s where the Hessian is right" % (col, rows), sub, ctx, sig_extra="hess-multiplier"))
+                else:
+                    bump("detected")
     return {"violations": viol, "stats": stats, "keys": keys, "executions": execs, "sample": small_sample(world, {"plans": world["case"]["plans"][:3]})}
